@@ -116,8 +116,11 @@ def sources(rules, extra_imports=()):
         for i in idxs:
             r = rules[i]
             mod = ("global " if r["global"] else "") + ("private " if r["private"] else "")
-            strings = ('  strings:\n    $m = "%s"\n' % marker(r["mk"]).decode()) if r["mk"] else ""
+            pads = "".join('    $p%d = "ZZPAD%dZZ%d"\n' % (j, j, i) for j in range(r.get("pad", 0)))
+            strings = ('  strings:\n%s    $m = "%s"\n' % (pads, marker(r["mk"]).decode())) if r["mk"] else ""
             cond = cond_text(r["cond"], names)
+            if r["mk"] and r.get("pad", 0):
+                cond = "(%s) or any of ($p*)" % cond      # never-matching padding strings: push $m to a high string index
             if r["mk"] and r["cond"]["k"] not in ("M", "NM", "Cnt"):
                 # a string that the condition does not mention must still be referenced
                 cond = "(%s) and (#m >= 0)" % cond
